@@ -74,7 +74,12 @@ def gen_operand(ty, re_val, rng, absent_pattern=None):
 
 def requests_for(ty, fn, rng, nsamples):
     """yield (ops, scalars) candidate inputs for one function"""
-    pts = RE_POINTS[DOMAIN.get(fn, "default")]
+    # the function's interior points plus the special points of C10/C15; points outside the domain are dropped later
+    # (the oracle raises or returns a non-finite value there)
+    dom = DOMAIN.get(fn, "default")
+    inside = {"nonzero": lambda x: x != 0.0, "pos": lambda x: x > 0.0, "unit": lambda x: abs(x) < 1.0, "gt1": lambda x: x > 1.0,
+              "gtm1": lambda x: x > -1.0}.get(dom, lambda x: True)
+    pts = RE_POINTS[dom] + [x for x in (0.0, 1.0, -1.0, 5.5) if inside(x)]
     pats = [None]
     if ty in BLOCKS:
         pats += [p for p in itertools.product([False, True], repeat=len(BLOCKS[ty])) if any(p)]
